@@ -190,6 +190,19 @@ class ContractResult:
         return 'proved'
 
 
+def _datetimes_in(v, depth=0):
+    if isinstance(v, SDateTime):
+        yield v
+    elif isinstance(v, Obj) and depth < 4:
+        for x in v.fields.values():
+            yield from _datetimes_in(x, depth + 1)
+    elif isinstance(v, (list, tuple)) and depth < 4:
+        for x in v:
+            yield from _datetimes_in(x, depth + 1)
+    elif isinstance(v, SOpt):
+        yield from _datetimes_in(v.val, depth + 1)
+
+
 def snapshot(v, memo=None):
     memo = {} if memo is None else memo
     if isinstance(v, Obj):
@@ -343,6 +356,27 @@ def verify(env, c, thorough=False):
     elif not res.unsupported:
         res.unsupported.append('vacuous: no path reaches a postcondition')
     results = solve.discharge(all_obs, thorough)
+    # counterexample search for undecided obligations: a model found under *narrowed* input domains (datetimes within a
+    # few years around 2020) is a counterexample for the whole domain; nothing is concluded if none is found
+    retry = [i for i, r in enumerate(results) if r.verdict == 'unknown' and not all_obs[i].tainted]
+    if retry:
+        import datetime as _dtm
+        narrowed = []
+        for i in retry[:24]:
+            ob = all_obs[i]
+            extra = []
+            for v in paths[ob.path_id].inputs.values():
+                for d in _datetimes_in(v):
+                    if isinstance(d.ord, Sym):
+                        extra.append(z3.And(d.ord.t >= _dtm.date(2019, 12, 20).toordinal(), d.ord.t <= _dtm.date(2021, 1, 12).toordinal()))
+            if extra:
+                from .path import Obligation
+                narrowed.append((i, Obligation(ob.name, ob.kind, ob.line, list(ob.pc) + extra, ob.goal, ob.tainted, ob.path_id, ob.note, ob.func)))
+        if narrowed:
+            nres = solve.discharge([o for _, o in narrowed], thorough)
+            for (i, _), r in zip(narrowed, nres):
+                if r.verdict == 'sat':
+                    results[i] = r
     for ob, r in zip(all_obs, results):
         o = res.obligations.get(ob.name)
         if o is None:
